@@ -62,7 +62,8 @@ CHECKS = {
              "through the public API with sympy before it is reported",
         note="identity over the reals (float rounding outside); domain assumptions listed in evidence (major>minor for binary_irrev, "
              "|atanh arg|<1 for binary_irrev_cstr); trusted: z3, the chain rules in vlib/dual.py and the ground facts about "
-             "exp/sqrt/tanh/atanh in vlib/ufnorm.py; 'callable with each backend' is not claimed",
+             "exp/sqrt/tanh/atanh in vlib/ufnorm.py; the default backend (None -> numpy) is exercised symbolically, other backends are "
+             "not claimed",
         technique="symbolic execution of the real functions on z3-backed dual numbers + SMT (z3 NRA) validity queries",
         ref="DESIGN.md section 5 C17"),
 }
@@ -75,8 +76,8 @@ CHECKS["C19"] = dict(
          "the defining formula, 'range warning <=> input outside the documented range' on every path, inverse helpers, and shape lemmas "
          "(density maximum at 3.98 C, viscosity decreasing); published anchor values by exact evaluation of the executed term",
     note="idealised units stub (commutative group with real scaling): behaviour of the real `quantities` package that deviates from it "
-         "(the statement's Nernst example: math.log of an unsimplified quantity) is outside; sulfuric_acid_density and "
-         "density_from_concentration (float()/numpy/iteration) not applicable; transcendental functions uninterpreted + ground facts; "
+         "(the statement's Nernst example: math.log of an unsimplified quantity) is outside; the VALUE of sulfuric_acid_density and "
+         "density_from_concentration (float()/numpy/iteration) not applicable (its range warnings are claimed); transcendental functions uninterpreted + ground facts; "
          "temperatures within [0.8*lo, 1.2*hi] of each range",
     technique=Z + " with uninterpreted transcendental functions and argument matching", ref="DESIGN.md section 5 C19")
 
